@@ -82,6 +82,18 @@ func TestC08(t *testing.T) {
 			return map[string]any{"scenario": "join request to a node whose recorded predecessor has just left"}
 		}, "scenario:join-while-predecessor-pointer-stale")
 	}
+	if p := joinWhileContactedNodeIsLeaving(); p != "" {
+		if len(p) > 13 && p[:13] == "precondition:" {
+			rec.Inconclusive("scenario-precondition")
+			t.Logf("contacted-node-leaving scenario: %s", p)
+		} else {
+			rec.Fail(t, "join-request-not-answered-cleanly-by-leaving-node", map[string]any{"schedule": "ring {1<<44, 2<<44, 3<<44}; 2<<44 holds keys and leaves gracefully, its Import to 3<<44 is held on the wire (state Leaving); 3<<43 asks 2<<44 to join; the hand-over is released", "problem": p}, "%s", p)
+		}
+	} else {
+		rec.Case(true, "scenario:join-while-contacted-node-is-leaving", func() any {
+			return map[string]any{"scenario": "join request to a node that is in the middle of its own graceful leave"}
+		}, "scenario:join-while-contacted-node-is-leaving")
+	}
 	// regression tier: shrunk failures found earlier, replayed without the library
 	for _, p := range c08Regressions {
 		c08Run(t, rec, p, sigPanic)
